@@ -230,6 +230,16 @@ def dedup : List (List Int) → List (List Int)
   | [] => []
   | a :: l => if l.contains a then dedup l else a :: dedup l
 
+/-- the `for nodes in sorted(to_be_mapped, key=sorted): .. yield from self._map_nodes(next_sgn, ..)` loop -/
+def lcsFound (pick : Cands → List Int → Int) (g sg : Graph) (cands : Cands) (C : Constraints)
+    (tbm : List (List Int)) : List Map :=
+  (sortBy (fun a b => lexLe (sortInts a) (sortInts b)) tbm).flatMap fun nodes =>
+    mapNodes pick g sg C nodes.length (pick cands nodes) cands [] nodes
+
+/-- `left_to_be_mapped`: every set of `to_be_mapped` with one node removed (`_remove_node`), as a set -/
+def lcsShrink (C : Constraints) (tbm : List (List Int)) : List (List Int) :=
+  dedup (tbm.flatMap fun nodes => nodes.map fun sgn => removeNode C nodes nodes.length sgn)
+
 /-- `_largest_common_subgraph(candidates, constraints, to_be_mapped)`; `level` = `current_size` bounds
 the recursion (one node fewer per level). -/
 def lcsWith (pick : Cands → List Int → Int) (g sg : Graph) (cands : Cands) (C : Constraints) :
@@ -237,15 +247,9 @@ def lcsWith (pick : Cands → List Int → Int) (g sg : Graph) (cands : Cands) (
   | 0, _ => []
   | level + 1, tbm =>
     let currentSize := (tbm.head?.getD []).length
-    let found : List Map :=
-      if currentSize ≤ g.keys.length then
-        (sortBy (fun a b => lexLe (sortInts a) (sortInts b)) tbm).flatMap fun nodes =>
-          mapNodes pick g sg C nodes.length (pick cands nodes) cands [] nodes
-      else []
+    let found : List Map := if currentSize ≤ g.keys.length then lcsFound pick g sg cands C tbm else []
     if !found.isEmpty || currentSize == 1 then found
-    else
-      let left := dedup (tbm.flatMap fun nodes => nodes.map fun sgn => removeNode C nodes nodes.length sgn)
-      lcsWith pick g sg cands C level left
+    else lcsWith pick g sg cands C level (lcsShrink C tbm)
 
 def largestCommonSubgraphWith (pick : Cands → List Int → Int) (g sg : Graph) (C : Constraints) : List Map :=
   if sg.keys.isEmpty then [[]]
